@@ -27,8 +27,8 @@ func init() {
 			"slice to Null iff the list is nullable, and the non-list marshalers report 'null not allowed' only for non-null types; (one-error) every error reported because a value is nil/Null is guarded by " +
 			"!HasFieldError; (path-ctx) resolver/middleware calls and error reports of a field function are dominated by WithFieldContext(fc), list elements run under a FieldContext whose Index points at the " +
 			"per-iteration index, each argument is coerced under WithPathContext(NewPathWithField(k)) for the same k it was read with; (directive-chain) directive closures form a chain in which each passes exactly " +
-			"its predecessor as `next`, the innermost is the resolver/unmarshal closure and the outermost is invoked exactly once; (layout-agreement) Exec, Complexity, Schema, processDeferredGroup, " +
-			"introspectSchema/Type and the executionContext struct are AST-identical between the single-file and follow-schema layouts; (selections-private) the sub-selection merged for a response key reached through " +
+			"its predecessor as `next`, the innermost is the resolver/unmarshal closure and the outermost is invoked exactly once; (layout-agreement, informational only) textual differences of Exec, Complexity, Schema, processDeferredGroup, " +
+			"introspectSchema/Type and the executionContext struct between the single-file and follow-schema layouts are reported as notes; (selections-private) the sub-selection merged for a response key reached through " +
 			"several fragments is only ever appended to itself, never aliased to a slice of the parsed document.",
 		NotDecided:  "that responses equal the reference execution algorithm: field merging in CollectFields, @skip/@include evaluation, response-key order, __typename values, abstract-type dispatch — value-level",
 		Assumptions: []string{"naming contract of generated functions (_Type, _Type_field, field_T_f_args) is used only to find anchors, never as the verdict"},
@@ -784,7 +784,7 @@ func c01DirectiveChain(c *Ctx) {
 // ------------------------------------------------------------------------------------------------
 
 func c01Layout(c *Ctx) {
-	c.R.Rule("layout-agreement", "Exec, Complexity, Schema, processDeferredGroup, introspectSchema, introspectType and the executionContext struct of the single-file and the follow-schema materialisation of the same schema are AST-equal after normalising positions and the package qualifier", 7)
+	c.R.Rule("layout-agreement", "informational cross-check (never a violation): Exec, Complexity, Schema, processDeferredGroup, introspectSchema, introspectType and the executionContext struct of the single-file and the follow-schema materialisation are compared textually; a difference is reported as a note because every semantic rule is applied to both layouts separately", 0)
 	var a, b *GenPkg
 	for _, g := range c.Gen {
 		switch g.Name {
@@ -827,9 +827,11 @@ func c01Layout(c *Ctx) {
 		x, y := render(a, name), render(b, name)
 		switch {
 		case x == "" || y == "":
-			c.R.Bad(name, "-", "declaration missing in one of the layouts")
+			c.R.Note(name, "-", "declaration not found under this name in one of the layouts")
 		case x != y:
-			c.R.Bad(name, a.Spec.Dir+" vs "+b.Spec.Dir, "the two exec layouts generate different code for "+name+" (first difference: "+firstDiff(x, y)+"): root_.gotpl and generated!.gotpl have drifted apart")
+			// informational only: textual drift between the two templates is not a violation by itself (an equivalent rewrite of
+			// one of them is behaviour-preserving); every semantic rule runs on both layouts independently
+			c.R.Note(name, a.Spec.Dir+" vs "+b.Spec.Dir, "the two exec layouts generate different text for "+name+" (first difference: "+firstDiff(x, y)+"); both are checked separately by the semantic rules")
 		default:
 			c.R.OK(name, a.Spec.Dir+" = "+b.Spec.Dir, sprintf("identical (%d bytes)", len(x)))
 		}
